@@ -5,7 +5,7 @@ import os
 
 from . import common
 
-EVID_DIR = os.path.join(common.VERIF, "evidence")
+EVID_DIR = os.environ.get("TFMC_EVIDENCE_DIR") or os.path.join(common.VERIF, "evidence")
 
 LEVELS = ("exploration", "fault_enumeration", "model_checking", "proof", "translation_validation", "other")
 
